@@ -264,21 +264,24 @@ func (n *Node) DataType() *ua.ExpandedNodeID {
 		log.Printf("n was nil!")
 		return ua.NewTwoByteExpandedNodeID(0)
 	}
-	v := n.attr[ua.AttributeIDDataType]
-	if v == nil || v.Value.Value() == nil {
-		// if we have a type definition, return that?
-		for i := range n.refs {
-			r := n.refs[i]
-			if r.ReferenceTypeID == nil {
-				log.Printf("reftypeid was nil!")
-			}
-			if r.ReferenceTypeID.IntID() == id.HasTypeDefinition && r.IsForward {
-				return r.NodeID
-			}
+	// the attribute can be overwritten by a Write with a value of any type: only an
+	// ExpandedNodeID counts, anything else is treated like a missing attribute
+	if v := n.attr[ua.AttributeIDDataType]; v != nil && v.Value != nil {
+		if dt, ok := v.Value.Value().(*ua.ExpandedNodeID); ok {
+			return dt
 		}
-		return ua.NewTwoByteExpandedNodeID(0)
 	}
-	return v.Value.Value().(*ua.ExpandedNodeID)
+	// if we have a type definition, return that?
+	for i := range n.refs {
+		r := n.refs[i]
+		if r.ReferenceTypeID == nil {
+			log.Printf("reftypeid was nil!")
+		}
+		if r.ReferenceTypeID.IntID() == id.HasTypeDefinition && r.IsForward {
+			return r.NodeID
+		}
+	}
+	return ua.NewTwoByteExpandedNodeID(0)
 }
 
 func (n *Node) SetNodeClass(nc ua.NodeClass) {
